@@ -125,6 +125,7 @@ let ses = { lvl = new_level N0; gen = N0; oracle = false; iface_ok = true; asks 
 (* fork: second level for C11 *)
 let fork : level option ref = ref None
 let fork_gen = ref N0
+let fq : order list ref = ref []
 
 let fuel = nat_of_int 20000
 
@@ -352,16 +353,28 @@ let handle line =
      | None -> "= nofuel")
   | ["IFACE"] -> Printf.sprintf "= iface=%d asks=%d" (if ses.iface_ok then 1 else 0) ses.asks
   (* ---- stand-alone queue (C19) ---- *)
-  | ["QNEW"] -> ses.q <- empty_queue; "= ok"
-  | ["QFROM"; listing] -> ses.q <- from_vec (parse_list order_of_string listing); "= ok"
-  | ["QPUSH"; o] -> ses.q <- push ses.q (order_of_string o); "= ok"
-  | ["QPOP"] -> let (o, q') = pop ses.q in ses.q <- q'; "= " ^ string_of_oorder o
-  | ["QFIND"; k] -> "= " ^ string_of_oorder (qfind ses.q (oid_of_string k))
-  | ["QREMOVE"; k] -> let (o, q') = qremove ses.q (oid_of_string k) in ses.q <- q'; "= " ^ string_of_oorder o
-  | ["QLEN"] -> "= " ^ string_of_n (qlen ses.q)
-  | ["QEMPTY"] -> "= " ^ (if qis_empty ses.q then "1" else "0")
-  | ["QVEC"] -> "= " ^ list_str string_of_order (to_vec ses.q)
+  | ["QNEW"] -> ses.q <- empty_queue; fq := []; "= ok"
+  | ["QFROM"; listing] ->
+    let os = parse_list order_of_string listing in
+    ses.q <- from_vec os; fq := os; "= built || built fresh=1"
+  | [("QPUSH" | "QPOP" | "QFIND" | "QREMOVE" | "QLEN" | "QEMPTY" | "QVEC") as c] | [("QPUSH" | "QFIND" | "QREMOVE") as c; _]
+    when true ->
+    let arg = (match String.split_on_char ' ' line with [_; a] -> a | _ -> "") in
+    let op = (match c with
+        | "QPUSH" -> QPush (order_of_string arg) | "QPOP" -> QPop | "QFIND" -> QFind (oid_of_string arg)
+        | "QREMOVE" -> QRemove (oid_of_string arg) | "QLEN" -> QLen | "QEMPTY" -> QEmpty | _ -> QVec) in
+    let fresh = (match op with
+        | QPush o -> not (List.exists (fun k -> oid_eqb k (oid_of o)) ses.q.tickets)
+        | _ -> true) in
+    let (q', r) = step_q ses.q op in
+    let (f', rf) = step_f !fq op in
+    ses.q <- q'; fq := f';
+    let so = function
+      | RUnit -> "unit" | ROrd o -> string_of_oorder o | RLen n -> string_of_n n
+      | RBool b -> if b then "1" else "0" | RVec l -> list_str string_of_order l in
+    Printf.sprintf "= %s || %s fresh=%d" (so r) (so rf) (if fresh then 1 else 0)
   | ["QSTATE"] -> "= map=" ^ list_str string_of_order ses.q.qmap ^ " tk=" ^ list_str string_of_oid ses.q.tickets
+                  ^ " abs=" ^ list_str string_of_oid (abs ses.q)
   | ["PING"] -> "= pong"
   | _ -> "= error unknown command: " ^ line
 
